@@ -305,6 +305,7 @@ func (m *Muxer) Start() error {
 		segmentMinDuration: m.SegmentMinDuration,
 		partMinDuration:    m.PartMinDuration,
 		parent:             m,
+		paramsMutex:        &m.mutex,
 	}
 	m.segmenter.initialize()
 
